@@ -274,7 +274,11 @@ def main():
                 smtlib.collect_information(exprs)
                 fresh = table_answers(exprs)
                 for (s0, w0, n), (s1, w1, _) in zip(before, fresh):
-                    if (s0 not in (None, 'raises') and s0 != s1) or (w0 not in (-1, 'raises') and w0 != w1):
+                    # both answers definite and different: the fresh one is what the in-process
+                    # part of C16 compares with the ground truth, so the other one is wrong
+                    # ("unknown" on either side decides nothing)
+                    if (s0 not in (None, 'raises') and s1 not in (None, 'raises') and s0 != s1) or \
+                            (w0 not in (-1, 'raises') and w1 not in (-1, 'raises') and w0 != w1):
                         if len(state.setdefault('stale_answers', [])) < 5:
                             state['stale_answers'].append(dict(term=str(n)[:120], sort=s0, width=w0, fresh_sort=s1, fresh_width=w1,
                                                                mutator=type(mutator).__name__))
